@@ -162,6 +162,7 @@ Next ==
     \/ ISetup
     \/ IAddVertex
     \/ \E u \in V, v \in V, c \in W :
+          /\ (TieFreeOnly /\ <<u, v>> \in Arcs(wt)) => wt[<<u, v>>] = c
           /\ IAddArc(u, v, c, TRUE) /\ Small(wt')
           /\ ArcCount < MaxE + 2                    \* a few parallel arcs, not arbitrarily many
           /\ TieFreeOnly => TieFree(wt', nv, 0)
@@ -197,5 +198,9 @@ InsMirrorOuts ==
 (* StaleParentNeverSeen is expected to be VIOLATED - used as a reachability probe *)
 StaleParentNeverSeen == \A u \in V : dist[u] = INF => par[u] = -1
 
-SView == <<nv, wt, up, outs, ins, dist, par>>
+(* The view keeps the graph as the contract sees it plus the number of arcs held: two states that *)
+(* differ only in the insertion order of the adjacency lists are explored once.  Without ties the *)
+(* operations compute the same (dist, par) whatever the order (unique shortest paths).            *)
+SView == <<nv, wt, up, dist, par, ArcCount>>
+SViewOrdered == <<nv, wt, up, outs, ins, dist, par>>
 ==============================================================================
